@@ -116,13 +116,13 @@ def confs_for(n, tier):
     shapes = ["linear", "grid", "timedim", "grid2"]
     out = []
     embs = list(EMB)
-    base = {"embedding": embs[n % 3], "shape": shapes[n % 4], "sp": n % 8, "tick_s": [60, 1][(n // 3) % 2], "bin_factor": 1 + n % 2,
+    base = {"embedding": embs[n % 3], "shape": shapes[n % 4], "sp": n % 11, "tick_s": [60, 1][(n // 3) % 2], "bin_factor": 1 + n % 2,
             "magnitude_factor": [1, 10][(n // 2) % 2], "leaf_size": [1, 40][(n // 3) % 2]}
     out.append(base)
     if tier != "quick":
         for e in embs:
             for sh in shapes:
-                out.append(dict(base, embedding=e, shape=sh, sp=(n + len(out)) % 8, tick_s=[60, 1][len(out) % 2]))
+                out.append(dict(base, embedding=e, shape=sh, sp=(n + len(out)) % 11, tick_s=[60, 1][len(out) % 2]))
     return out
 
 
